@@ -146,6 +146,30 @@ Proof.
   - split; vm_compute; reflexivity.
 Qed.
 
+(* "every rule and annotation the j5s schema language can express": the declaration
+   language of the models against schema.proto. The translator reads every field-type
+   message of proto/j5/j5/schema/v1/schema.proto with its Rules and Ext, ObjectProperty,
+   KeyFormat and EntityKey (RulesGen.schema_vocabulary); [vocabulary] (proofs/RulesGenProofs.v)
+   gives every one of those fields its place in the models or marks it Outside. A field
+   added to schema.proto breaks this obligation until it has a place. *)
+Theorem C04_schema_vocabulary_covered :
+  map (fun e => (fst e, map fst (snd e))) vocabulary = RulesGen.schema_vocabulary.
+Proof. exact schema_vocabulary_covered. Qed.
+Print Assumptions C04_schema_vocabulary_covered.
+
+(* ... and what is Outside, all of it: the (empty) Ext messages of the scalar / message field
+   types, the content of float rules (their presence is a compile error), KeyField.rules (an
+   empty message), MapField.key_schema (always a string), ObjectField.entity (EntityJoin) *)
+Example C04_vocabulary_outside :
+  vocabulary_outside =
+  [("BoolField", "ext"); ("BytesField", "ext"); ("DateField", "ext"); ("DecimalField", "ext"); ("EnumField", "ext");
+   ("FloatField", "ext"); ("FloatField.Rules", "exclusive_maximum"); ("FloatField.Rules", "exclusive_minimum");
+   ("FloatField.Rules", "minimum"); ("FloatField.Rules", "maximum"); ("FloatField.Rules", "multiple_of");
+   ("IntegerField", "ext"); ("KeyField", "rules"); ("KeyField", "ext"); ("MapField", "key_schema");
+   ("ObjectField", "ext"); ("ObjectField", "entity"); ("ObjectField.EntityJoin", "entity");
+   ("ObjectField.EntityJoin", "entity_part"); ("OneofField", "ext"); ("StringField", "ext"); ("TimestampField", "ext")]%string.
+Proof. vm_compute. reflexivity. Qed.
+
 (* root schemas — for every object and every oneof: kind, name, description and the
    properties (norm_root: kind / name / description as declared, properties in normal
    form); exact as for properties *)
